@@ -22,7 +22,7 @@ static uint64_t rnd() {
 }
 static uint64_t below(uint64_t n) { return n ? rnd() % n : 0; }
 
-static uint64_t ops_done = 0, checks_done = 0, growths = 0, shared_mutations = 0;
+static uint64_t ops_done = 0, checks_done = 0, growths = 0, shared_mutations = 0, moved_aliases = 0;
 static bool allow_alias = false;
 
 [[noreturn]] static void fail(const std::string& what) {
@@ -85,7 +85,7 @@ static void run_vec(uint64_t nops, const char* tname) {
     for (uint64_t op = 0; op < nops; ++op) {
         ops_done++;
         int i = (int)below(K), j = (int)below(K);
-        switch (below(allow_alias ? 17 : 16)) {  // "alias" adds v.push_back(v[k])
+        switch (below(allow_alias ? 18 : 16)) {  // "alias" adds v.push_back(v[k]) and v.push_back(std::move(v[k]))
             case 0:
                 rv[i] = resolvo::Vector<T>();
                 sv[i].clear();
@@ -215,6 +215,20 @@ static void run_vec(uint64_t nops, const char* tname) {
                     sv[i].push_back(x);
                 }
                 break;
+            case 17:
+                // element of the vector itself moved into push_back (std::vector guarantees this);
+                // the moved-from element is given a fresh value afterwards
+                if (!sv[i].empty()) {
+                    size_t k = (size_t)below(sv[i].size());
+                    S x = sv[i][k];
+                    rv[i].push_back(std::move(rv[i][k]));
+                    sv[i].push_back(x);
+                    uint32_t y = (uint32_t)below(1000);
+                    rv[i][k] = Elem<T>::make(y);
+                    sv[i][k] = Elem<T>::shadow(y);
+                    moved_aliases++;
+                }
+                break;
         }
         for (int k = 0; k < K; ++k) verify<T>(rv[k], sv[k], tname);
     }
@@ -327,6 +341,6 @@ int main(int argc, char** argv) {
         run_string(nops);
     }
     std::cout << "OK sequences=" << nseq * 4 << " ops=" << ops_done << " checks=" << checks_done << " growths=" << growths
-              << " mutations_through_index=" << shared_mutations << std::endl;
+              << " mutations_through_index=" << shared_mutations << " moved_from_own_element=" << moved_aliases << std::endl;
     return 0;
 }
